@@ -304,7 +304,7 @@ var strLitRe = regexp.MustCompile(`"([A-Za-z][A-Za-z ]{2,})"`)
 func applyLayout(lc *layoutCase) (edited string, from int, k int, ok bool) {
 	lines := strings.Split(lc.Source, "\n")
 	switch lc.Edit {
-	case "blank", "comment", "two":
+	case "blank", "comment", "two", "block-comment":
 		if lc.Line < 1 || lc.Line > len(lines) {
 			return "", 0, 0, false
 		}
@@ -317,6 +317,9 @@ func applyLayout(lc *layoutCase) (edited string, from int, k int, ok bool) {
 			ins = []string{"  # layout comment"}
 		case lc.Edit == "two":
 			ins = []string{lc.Text, "# another comment"}
+		case lc.Edit == "block-comment":
+			// =begin/=end stand at the start of their lines, whatever the nesting
+			ins = []string{"=begin", lc.Text, "=end"}
 		}
 		out := append([]string{}, lines[:lc.Line-1]...)
 		out = append(out, ins...)
@@ -458,13 +461,14 @@ func init() {
 			return judgeLayout(c, s.BlackBox(), &lc)
 		},
 		Run: func(c *CheckCtx) {
-			c.rule = "pairs (program, layout edit): blank line / comment-only line / two such lines inserted at a statement boundary (generated programs: every boundary the AST offers, at any nesting depth, including before else/end; corpus programs: boundaries from a conservative line scanner), final newline removed or doubled, a string literal widened by a real newline; modes plain and -i. Oracle: out(edited) == out(original) with rows at or after the edit shifted by the number of added lines. distinct_nontrivial = distinct (edit, mode, line, program) pairs whose original run printed at least one located record"
+			c.rule = "pairs (program, layout edit): blank line / comment-only line / two such lines / a three-line =begin ... =end block comment inserted at a statement boundary (generated programs: every boundary the AST offers, at any nesting depth, including before else/end; corpus programs: boundaries from a conservative line scanner), final newline removed or doubled, a string literal widened by a real newline; modes plain and -i. Oracle: out(edited) == out(original) with rows at or after the edit shifted by the number of added lines. distinct_nontrivial = distinct (edit, mode, line, program) pairs whose original run printed at least one located record"
 			c.assumptions = []string{"pairs in which either run crashes or hangs are skipped (C01/C02)", "for a widened string literal, records located on the literal's own line may stay or move"}
 			items := Corpus()
 			var jobs []*layoutCase
 			r := c.RNG.Sub(6)
 			modes := [][]string{{}, {"-i"}}
-			edits := []string{"blank", "comment", "two"}
+			edits := []string{"blank", "comment", "two", "blank", "comment", "two", "block-comment"}
+			blockTexts := []string{"text of a block comment", "end", "  def x", "", "x = ", "=begin", "# inside", "\"unterminated"}
 			blankTexts := []string{"", "", "   ", "\t", " \t "}
 			commentTexts := []string{"#", "  #", "# c", "#c", "##", "  # layout comment", "# ti-doc: note", "# ti-for-llm: note", "#{", "# 'quote", "# \"dq", "# end", "# def x", "#\\", "# =begin", "#!x"}
 			textFor := func(edit string) string {
@@ -473,6 +477,8 @@ func init() {
 					return Pick(r, blankTexts)
 				case "comment":
 					return Pick(r, commentTexts)
+				case "block-comment":
+					return Pick(r, blockTexts)
 				}
 				return Pick(r, append(append([]string{}, blankTexts...), commentTexts...))
 			}
